@@ -42,6 +42,9 @@ pub enum Op {
     /// whale order sized (by bisection on the vAMM's own band query, on a what-if copy) so that closing a holder's whole position
     /// afterwards lands the price on the edge of the per-block band; the holder's ClosePosition follows as the next step
     EdgeClose { v: u8, t: u8, knob: u16 },
+    /// a trader takes the other side of the market's whole net position (order sized by bisection on a what-if copy), so that
+    /// the vAMM's net position becomes exactly zero while positions stay open
+    Balance { v: u8, t: u8 },
 }
 
 #[derive(Clone, Debug, Serialize, Deserialize, PartialEq, Eq, Hash)]
@@ -77,6 +80,7 @@ pub struct Weights {
     pub edge: u32,
     pub intruder: u32,
     pub edge_close: u32,
+    pub balance: u32,
 }
 
 impl Weights {
@@ -106,6 +110,7 @@ impl Weights {
             edge: 0,
             intruder: 0,
             edge_close: 0,
+            balance: 0,
         }
     }
 }
@@ -131,6 +136,8 @@ pub struct CfgProfile {
     pub alien: bool,
     /// traders 1 and 2 get long addresses sharing all but the last byte
     pub long_names: bool,
+    /// caps on one vAMM in four only (for checks whose histories must stay liquid)
+    pub caps_light: bool,
 }
 
 impl CfgProfile {
@@ -149,6 +156,7 @@ impl CfgProfile {
             six_decimals: false,
             alien: false,
             long_names: false,
+            caps_light: false,
         }
     }
 }
@@ -173,7 +181,13 @@ pub fn vamm_cfg_strategy(d: u128, p: &CfgProfile) -> BoxedStrategy<VammCfg> {
     } else {
         vec![0]
     };
-    let cap_tab: Vec<u128> = if p.caps { vec![0, 1, 2, 3] } else { vec![0] };
+    let cap_tab: Vec<u128> = if p.caps_light {
+        vec![0, 0, 0, 0, 0, 0, 0, 0, 0, 1, 2, 3]
+    } else if p.caps {
+        vec![0, 1, 2, 3]
+    } else {
+        vec![0]
+    };
     let odd = p.odd_vamms;
     (
         (sel(prices), sel(depths), any::<u32>(), any::<u32>()),
@@ -312,6 +326,7 @@ pub fn op_strategy(w: &Weights) -> BoxedStrategy<Op> {
         (w.edge, 21),
         (w.intruder, 22),
         (w.edge_close, 23),
+        (w.balance, 24),
     ]
     .into_iter()
     .filter(|(wt, _)| *wt > 0)
@@ -348,11 +363,12 @@ pub fn op_strategy(w: &Weights) -> BoxedStrategy<Op> {
                 16 => Op::Whitelist { t, add: b },
                 17 => Op::Shutdown,
                 18 => Op::RegisterAlien { add: b },
-                19 => Op::Alias { kind: s1 % 6, v, amt: k1 },
+                19 => Op::Alias { kind: s1, v, amt: k1 },
                 20 => Op::Rewire { v, what: s1 },
                 21 => Op::PushEdge { v, up: b, knob: k1 },
                 22 => Op::Intruder { v, who: s2, kind: s1, knob: k1 },
-                _ => Op::EdgeClose { v, t, knob: k1 },
+                23 => Op::EdgeClose { v, t, knob: k1 },
+                _ => Op::Balance { v, t },
             }
         })
         .boxed()
